@@ -536,6 +536,21 @@ def run(ck, build):
     for u in unknown:
         ck.note("bounds not decided: " + u)
     ck._c06_unknown = unknown
+    # "outputs never depend on uninitialised memory", the one carrier the library has: the buffer the PRNG hands to the entropy source is hashed
+    # whether or not the source filled it, so it must be defined when the source is asked (the byte-provenance summary of the seeding
+    # functions shared with R-C15-DEP / R-C19-FRESH; here only those obligations)
+    ck.rule("R-C06-DEFINED", "the buffer the PRNG initialisers and reseed hand to the entropy source is defined (all zero, or the old V in reseed) before the request: a short or failed "
+            "delivery leaves no byte of the caller's object or of the stack in what is hashed into the generator")
+    from . import kdflib
+
+    def _defined_ob(cond, rule, fn, cons, ok_, bad_, where=None):
+        if cons.split("[")[0].endswith("-prefill"):
+            return ck.ob(cond, "R-C06-DEFINED", fn, "defined-" + cons, ok_, "the generator's output depends on memory the library never initialised: " + bad_, where=where)
+        return cond
+    try:
+        kdflib.check_prng(_defined_ob, mod, label, generate=False)
+    except Broken as e:
+        ck.not_decided.append("R-C06-DEFINED (the PRNG seed buffer is defined before the entropy request): the seeding summary does not follow the code - %s" % str(e)[:160])
     nw, nwnotes = nowrap_rule(ck, mod, label)
     ck.floor("R-C06-NOWRAP", "length subtractions shown not to wrap", nw["proven"], 12)
     for u in nwnotes:
